@@ -298,7 +298,7 @@ func contains(xs []string, x string) bool {
 func hasDependents(s *Spec, label string) bool {
 	for _, p := range s.Pkgs {
 		for _, t := range p.Targets {
-			if contains(t.Srcs, label) || contains(t.Deps, label) || contains(t.Data, label) {
+			if contains(t.Srcs, label) || contains(t.Deps, label) || contains(t.Data, label) || contains(t.Tools, label) {
 				return true
 			}
 		}
@@ -309,7 +309,7 @@ func hasDependents(s *Spec, label string) bool {
 // DepsOf returns the labels t refers to in srcs/deps/data.
 func DepsOf(t *Target) []string {
 	var out []string
-	for _, x := range append(append(append([]string{}, t.Srcs...), t.Deps...), t.Data...) {
+	for _, x := range append(append(append(append([]string{}, t.Srcs...), t.Deps...), t.Data...), t.Tools...) {
 		if strings.HasPrefix(x, "//") {
 			out = append(out, x)
 		}
